@@ -165,6 +165,15 @@ func (e *Engine) applyOverride(g *ssa.Global, o *Obj) {
 			a.F[i] = Int{W: 8, C: uint64(c)}
 		}
 		o.V = Slice{O: e.newObj(a), Len: len(b), Cap: len(b)}
+	case strings.HasPrefix(ov, "func:"):
+		// a function-typed variable bound to a named function (e.g. a key generator chosen in an init())
+		name := ov[5:]
+		dot := strings.LastIndex(name, ".")
+		pkg := e.prog.ImportedPackage(name[:dot])
+		if pkg == nil || pkg.Func(name[dot+1:]) == nil {
+			unsup("override %s: no such function", ov)
+		}
+		o.V = Closure{Fn: pkg.Func(name[dot+1:])}
 	case ov == "opaque":
 		// a value that is only passed through to redirected / stubbed callees
 		o.V = Iface{T: e.logT, V: e.newOpaque("override:" + g.String())}
